@@ -1,4 +1,5 @@
 import Gaftools.Props.C12
+import Gaftools.Props.TieA2
 #print axioms Gaftools.C12.cigarValid_iff
 #print axioms Gaftools.C12.aligns_lengths
 #print axioms Gaftools.C12.aligns_wfOps
@@ -7,3 +8,4 @@ import Gaftools.Props.C12
 #print axioms Gaftools.C12.untouched
 #print axioms Gaftools.C12.passthrough
 #print axioms Gaftools.C12.realign_record
+#print axioms Gaftools.TieA.passThrough_gen
